@@ -76,6 +76,8 @@ class BuiltinMixin:
             if t is not None and z3.is_app(t) and not z3.is_const(t) and t.decl().kind() == z3.Z3_OP_SELECT and var.eq(t.arg(1)) \
                     and not _mentions_var(t.arg(0), var):
                 pats.append(z3.substitute(t, (var, v2)))
+            elif t is not None and z3.is_app(t) and t.decl().kind() == z3.Z3_OP_UNINTERPRETED and t.num_args() == 1 and var.eq(t.arg(0)):
+                pats.append(z3.substitute(t, (var, v2)))          # f(var) for an uninterpreted f
         try:
             ax = z3.ForAll([v2], z3.Select(a, v2) == b2, patterns=pats)
         except z3.Z3Exception:
